@@ -68,6 +68,9 @@ def infeasible(ctx, n):
             hor = {"w": 7, "d": 1}[ap["dur"][0]] * ap["dur"][1]
             nd["start"] = ap["start"] - ap["start"] % 86400 + (hor - rng.choice([0, 1, 2, 3])) * 86400 + rng.choice([0, 9, 16]) * 3600
             nd["effort"] = rng.choice([2400, 4800, 480])
+        if k != 8 and rng.random() < 0.25:
+            # project lengths in every unit the header grammar accepts (hours and minutes included)
+            ap["dur"] = rng.choice([("h", 36), ("h", 2000), ("min", 90), ("y", 1), ("m", 2), ("d", 3), ("w", 1)])
         ap["_family"] = "infeasible%d" % k
         out.append(ap)
     return out
